@@ -22,6 +22,10 @@ def check(tr):
     sync = kind == "sync_hb_bo"
     policy = s.get("searcher_data", "rungs") if not sync else "rungs"
     rung_levels = set(levels_from_sched(s)) | {max_t} if not sync else None
+    base_levels = levels_from_sched(s) if not sync else []
+    bracket_of = {}
+    decided_at = {}
+    resume_from = {}
     rets = {e["s"]: e for e in tr.events if e["k"] == "s.ret"}
     reported = {}  # trial -> {level: metric}
     delivered = {}  # trial -> list of levels delivered while the trial was live (in order)
@@ -51,19 +55,29 @@ def check(tr):
                 live.add(str(t))
                 decided.discard(str(t))
             else:
-                live.add(str(c["ret"]["ckpt"]))
-                decided.discard(str(c["ret"]["ckpt"]))
+                rts = str(c["ret"]["ckpt"])
+                live.add(rts)
+                decided.discard(rts)
+                if decided_at.get(rts):
+                    resume_from[rts] = max(decided_at[rts])  # re-reports up to the pause level are ignored
         elif m == "on_trial_result":
             ts = str(t)
             lvl = int(c["result"]["epoch"])
             if ts in live and ts not in decided:
                 reported.setdefault(ts, {})[lvl] = float(c["result"][metric])
-                delivered.setdefault(ts, []).append(lvl)
+                if lvl > resume_from.get(ts, 0):
+                    delivered.setdefault(ts, []).append(lvl)
             if c["ret"] in ("STOP", "PAUSE"):
+                if ts in live and ts not in decided:
+                    decided_at.setdefault(ts, set()).add(lvl)
                 decided.add(ts)
         elif m in ("on_trial_remove", "on_trial_complete", "on_trial_error"):
             ended = str(t)
             live.discard(ended)
+        if m == "on_trial_add" and "bracket" in ev:
+            bracket_of[str(t)] = ev["bracket"]
+        elif m == "suggest" and c["ret"] is not None and not c["ret"]["new"] and "bracket" in ev:
+            bracket_of[str(c["ret"]["ckpt"])] = ev["bracket"]
         gp = ev.get("gp")
         if gp is None:
             if m == "suggest":
@@ -91,10 +105,13 @@ def check(tr):
                     required = set(allowed)
                 elif policy == "all":
                     allowed = set(dl)
-                    required = set()
+                    required = set(dl)
                 else:
+                    # "rungs plus latest": what is kept are the trial's OWN milestones (bracket offset respected)
+                    # kept for good: the levels at which the trial reached a milestone (judged by the scheduler's own
+                    # decision: it paused or stopped there); kept for now: the latest level
                     allowed = {l for l in dl if l in rung_levels} | ({dl[-1]} if dl else set())
-                    required = set()
+                    required = set(decided_at.get(ts, ())) | ({dl[-1]} if dl else set())
                 if not have <= allowed:
                     bad("R2.extra_levels", "trial %s: levels %s in the data set, policy %s allows %s" % (ts, sorted(have - allowed), policy, sorted(allowed)),
                         c["s1"], policy=policy)
